@@ -189,6 +189,9 @@ package routing
 //@   ensures [C11.sr-balance] implies(outflow > 0, storage == prevStorage + (inflow + lateral - srEvapFlux(prevStorage/duration + inflow, area, netEvapRate) - outflow)*duration)
 //@   ensures [C11.sr-balance-zero-outflow] implies(outflow == 0, storage == srNewStorage(prevStorage, inflow, lateral, srEvapFlux(prevStorage/duration + inflow, area, netEvapRate), duration))
 //@   ensures [C11.sr-no-water-created] storage + outflow*duration <= srNewStorage(prevStorage, inflow, lateral, srEvapFlux(prevStorage/duration + inflow, area, netEvapRate), duration)
+//@   atreturn 1 [C11.sr-relation-within-tolerance] abs(qi*duration + srIndexStorage(qi, routingPower, routingConstant, Qlimit, Klimit, Koffset, deadStorage) - srNewStorage(prevStorage, inflow, lateral, srEvapFlux(prevStorage/duration + inflow, area, netEvapRate), duration)) <= massBalanceLimit
+//@   atreturn 3 [C11.sr-relation-within-tolerance] abs(qi*duration + srIndexStorage(qi, routingPower, routingConstant, Qlimit, Klimit, Koffset, deadStorage) - srNewStorage(prevStorage, inflow, lateral, srEvapFlux(prevStorage/duration + inflow, area, netEvapRate), duration)) <= massBalanceLimit
+//@   atreturn 4 [C11.sr-relation-within-tolerance] abs(qi*duration + srIndexStorage(qi, routingPower, routingConstant, Qlimit, Klimit, Koffset, deadStorage) - srNewStorage(prevStorage, inflow, lateral, srEvapFlux(prevStorage/duration + inflow, area, netEvapRate), duration)) <= massBalanceLimit
 //@   ensures [C11.sr-law] implies(outflow > 0 && qi > 0 && storage > lateral*duration, storage == routingConstant*pow(qi, routingPower) + deadStorage)
 
 //@ func storageRouting(inflows, laterals, rainfall, evap, s, prevInflow, prevOutflow, bias, k, x, area, deadStorage, deltaT, outflows, storages) returns (rS, rIn, rOut)
